@@ -202,6 +202,12 @@ func runDuties(c *DutiesCase, out *outcome) {
 		duty := d
 		_ = duty.String()
 		_ = duty.Tuples()
+		if uint64(duty.Slot()) < c.Epoch*spe || uint64(duty.Slot()) > c.Epoch*spe+spe-1 {
+			// The attester only ever sees duties the controller has filtered to the slots of the
+			// requested epoch (scheduleAttestations); MergeDuties and Subscribe see the unfiltered list.
+			out.label("duties:outside-epoch-not-attested")
+			continue
+		}
 		out.addPanic(guard(func() {
 			atts, err := att.Attest(ctx, duty)
 			switch {
@@ -259,6 +265,20 @@ func runDuties(c *DutiesCase, out *outcome) {
 }
 
 func classifyDuties(c *DutiesCase, out *outcome) {
+	if len(c.Duties) > 1 {
+		lo, hi := c.Duties[0].Slot, c.Duties[0].Slot
+		for _, d := range c.Duties {
+			lo, hi = min(lo, d.Slot), max(hi, d.Slot)
+		}
+		switch {
+		case lo == 0 && hi == ^uint64(0):
+			out.label("duties:slots-span-whole-range")
+		case hi-lo >= 1<<63:
+			out.label("duties:slots-span-over-2^63")
+		case hi-lo >= 32:
+			out.label("duties:slots-span-several-epochs")
+		}
+	}
 	ours := map[uint64]bool{}
 	for _, o := range c.Ours {
 		ours[o] = true
@@ -299,9 +319,23 @@ func classifyDuties(c *DutiesCase, out *outcome) {
 // runtime might actually try to satisfy are not generated, to protect the shared machine.
 var committeeLengths = []uint64{1, 1, 2, 64, 128, 2048, 2049, 1 << 20, 1 << 62, 1<<63 + 5, ^uint64(0)}
 
+// genCommitteeLength: any boundary class except 0 (the decoder refuses it) and except the range
+// whose aggregation bitlist the Go runtime might really try to allocate (see committeeLengths).
+func genCommitteeLength(t *rapid.T) uint64 {
+	if rapid.Bool().Draw(t, "committeeLengthKnown") {
+		return rapid.SampledFrom(committeeLengths).Draw(t, "committeeLength")
+	}
+	v := genU64(t, "committeeLengthBoundary")
+	if v == 0 || (v > 1<<20 && v < 1<<62) {
+		return 1
+	}
+	return v
+}
+
 func genDutiesCase(t *rapid.T) Case {
 	c := &DutiesCase{
-		Epoch:       rapid.SampledFrom([]uint64{0, 1, 2, 3, 1000, 1 << 40}).Draw(t, "epoch"),
+		// the epoch is vouch's own (from its clock): its slots stay below 2^63
+		Epoch: rapid.SampledFrom([]uint64{0, 0, 0, 1, 2, 3, 1000, 1<<31 - 1, 1 << 32, 1 << 40, 1<<58 - 2, 1<<58 - 1}).Draw(t, "epoch"),
 		CurrentSlot: rapid.Uint64Range(0, 31).Draw(t, "currentSlot"),
 		SourceEpoch: 0,
 		ZeroSigFor:  rapid.SampledFrom([]int{-1, -1, -1, 0, 1}).Draw(t, "zeroSigFor"),
@@ -310,34 +344,47 @@ func genDutiesCase(t *rapid.T) Case {
 		ErrKind:     genErrKind(t, "errKind"),
 		SubmitErr:   rapid.IntRange(0, 11).Draw(t, "submitErr") == 0,
 	}
-	// attestation data epochs around the duty epoch (the attester validates them)
+	// attestation data epochs around the duty epoch (the attester validates them) or anywhere
 	c.TargetEpoch = c.Epoch
-	switch rapid.IntRange(0, 9).Draw(t, "epochsKind") {
+	switch rapid.IntRange(0, 11).Draw(t, "epochsKind") {
 	case 0:
 		c.TargetEpoch = c.Epoch + 1
 	case 1:
 		c.SourceEpoch = c.Epoch + 1
 	case 2:
-		if c.Epoch > 0 {
-			c.TargetEpoch = c.Epoch - 1
-		}
+		c.TargetEpoch = c.Epoch - 1
+	case 3:
+		c.SourceEpoch, c.TargetEpoch = genU64(t, "sourceEpoch"), genU64(t, "targetEpoch")
 	}
-	pool := []uint64{0, 1, 5, 77, 1 << 33, ^uint64(0)}
+	// our validators: indices from the boundary classes, so that duties drawn from the same classes hit them
+	pool := []uint64{0, 1, 1 << 32, 1<<63 - 1, ^uint64(0), 1 << 31, 7}
 	nOurs := rapid.IntRange(0, 3).Draw(t, "nOurs")
 	for i := 0; i < nOurs; i++ {
 		c.Ours = append(c.Ours, pool[i])
 	}
+	// Slots: inside the epoch (all the client library's HTTP call lets through) or anywhere in the
+	// range (MergeDuties and Subscribe do not filter, the controller does); one list mixes both.
+	wild := rapid.IntRange(0, 2).Draw(t, "wildSlots") > 0
 	n := rapid.IntRange(0, 6).Draw(t, "nDuties")
 	for i := 0; i < n; i++ {
 		d := DutySpec{
 			Slot:             c.Epoch*32 + rapid.SampledFrom([]uint64{0, 1, 1, 2, 31}).Draw(t, "slotInEpoch"),
 			ValidatorIndex:   rapid.SampledFrom(pool).Draw(t, "dutyValidator"),
 			CommitteeIndex:   rapid.SampledFrom([]uint64{0, 0, 1, 63, 64, ^uint64(0)}).Draw(t, "committeeIndex"),
-			CommitteeLength:  rapid.SampledFrom(committeeLengths).Draw(t, "committeeLength"),
+			CommitteeLength:  genCommitteeLength(t),
 			CommitteesAtSlot: rapid.SampledFrom([]uint64{0, 1, 4, 64, ^uint64(0)}).Draw(t, "committeesAtSlot"),
 			Key:              rapid.IntRange(0, nKeys+1).Draw(t, "dutyKey"),
 		}
-		d.ValidatorCommitteeIndex = rapid.SampledFrom([]uint64{0, 0, 1, d.CommitteeLength - 1, d.CommitteeLength, d.CommitteeLength + 1, ^uint64(0)}).Draw(t, "position")
+		if wild && rapid.Bool().Draw(t, "wildSlot") {
+			d.Slot = genU64(t, "slotBoundary")
+		}
+		if rapid.Bool().Draw(t, "wildFields") {
+			d.ValidatorIndex = genU64(t, "validatorBoundary")
+			d.CommitteeIndex = genU64(t, "committeeIndexBoundary")
+			d.CommitteesAtSlot = genU64(t, "committeesAtSlotBoundary")
+		}
+		d.ValidatorCommitteeIndex = rapid.SampledFrom([]uint64{0, 0, 1, d.CommitteeLength - 1, d.CommitteeLength, d.CommitteeLength + 1,
+			1 << 31, 1 << 32, 1<<63 - 1, 1 << 63, ^uint64(0) - 1, ^uint64(0)}).Draw(t, "position")
 		c.Duties = append(c.Duties, d)
 	}
 	return Case{Target: "duties", Duties: c}
